@@ -40,15 +40,25 @@ RULE = ("root datasets of 5..40 events (three dyadic scalar columns with "
         "and at least two different masks were seen on one level; distinct = "
         "different case dict")
 TRUSTED_BASE = [
-    "hash oracle: hashobj (md5) of two different mask chains differs "
-    "(modelled as equality of the mask chains)",
+    "hash oracle: hashobj (md5) of two different (mask, root ids) pairs "
+    "differs (modelled as equality of what is hashed)",
     "numpy boolean indexing / where / isin behave as select / where / "
     "membership over lists (modelled, compared on every run)",
-    "the box/invalid filter of one level is modelled for min/max ranges and "
-    "NaN/inf only; polygon filters and 'limit events' are not exercised "
-    "(C03's subject)",
+    "the box/invalid filter of one level is modelled for min/max ranges "
+    "(with the per-feature cache of Filter.update) and NaN/inf only; polygon "
+    "filters and 'limit events' are not exercised (C03's subject)",
     "ChildScalar's lazy cache is modelled as a snapshot taken at refresh "
-    "(the harness reads features only right after a refresh)",
+    "(the harness reads features only right after a refresh); len(child) is "
+    "read once right after the child is created, so that _length is always "
+    "cached",
+    "C04_nonscalar_child_is_view is conditional on length consistency of "
+    "the parent's filter and on the parent being mappable to the root; these "
+    "hold on every observed state (checked by the oracle: filter sizes, "
+    "map_indices_child2root vs composed masks) but are not proved as a "
+    "history invariant",
+    "model of the root dataset: a plain Filter has no _root_ids / "
+    "_parent_hash; the model gives them the values of an all-selected child "
+    "(never read by the modelled code paths)",
 ]
 ASSUMPTIONS = [
     "filter.manual[i] of a level refers to the i-th event the level had at "
@@ -59,7 +69,10 @@ ASSUMPTIONS = [
     "the correspondence check covers both)",
     "the user re-including an event (manual[i] = True) is not required to "
     "win over a stored root id (documented behaviour of "
-    "retrieve_manual_indices when all entries are True)",
+    "retrieve_manual_indices when all entries are True): re-included events "
+    "are 'don't care' for the oracle and for the theorem (g_excl/g_ever)",
+    "the child's 'index' feature is renumbered by design and not compared; "
+    "computed features a dict root cannot compute are skipped",
 ]
 
 GIVEN = ["deform", "area_um", "bright_avg"]
